@@ -94,6 +94,9 @@ $(B)/tsan/h_C12tsan.o: $(VERIF)checks/C12tsan.cpp $(wildcard $(VERIF)engine/*.hp
 $(B)/bin/C12tsan: $(B)/tsan/h_C12tsan.o $(addprefix $(B)/tsan/fitter_,$(addsuffix .o,$(FITTER))) $(addprefix $(B)/tsan/core_,$(addsuffix .o,$(CORE)))
 	@mkdir -p $(dir $@)
 	$(CXX) -fsanitize=thread -o $@ $^ $(LIBS)
+$(B)/bin/C11 $(B)/bin/C10: $(B)/bin/%: $(B)/asan/h_%.o $(ASAN_LIBOBJS) $(ENGINE_OBJS)
+	@mkdir -p $(dir $@)
+	$(CXX) $(SAN) -Wl,--wrap=walk_descents -o $@ $^ $(LIBS)
 harness-C12: $(B)/bin/C12 $(B)/bin/C12tsan
 	@true
 
